@@ -129,6 +129,8 @@ type Exec struct {
 	lenient   int                  // >0 while running package initialisers
 	mapOrder  bool
 	oneSched  bool
+	schedPrefix   int
+	schedPrefixOn bool
 	sched     *Sched
 	cur       *Thread
 	termID    string // assertion id for non-termination
